@@ -312,6 +312,11 @@ class CallMixin:
     def setattr(self, base, attr, v, path, node):
         if isinstance(base, sv.SUnion):
             base = self.expect(base, sv.SRef, path, node, what="none")
+        if isinstance(base, (sv.SDict, sv.SList)) and attr in getattr(self.cur_contract, "dropped_attrs", ()):
+            # an attribute of a container object that the container model (a plain map / sequence) does not carry, declared by
+            # the contract as outside the model (e.g. IOList.frozen): the assignment is dropped and listed in the evidence
+            self.dropped += 1
+            return
         if not isinstance(base, sv.SRef):
             raise Unsupported(f"attribute assignment on {base}", node)
         ci = self.class_of_ref(base)
